@@ -69,6 +69,7 @@ struct Mon {
 	int expect_result = -1;          // result the next view must report for the previous action
 	bool logger_ops_effective = true;
 	int last_method = -1, last_cls = -1;
+	uint8_t consumed_logs[32] = {0};
 	const void* ev_addr = 0; bool ev_addr_set = false;
 
 	Mon(Node& n_, OpExec& x_, int idx, std::vector<Violation>& o)
@@ -367,21 +368,40 @@ struct Mon {
 		const bool succ_out = cycle_succ_call || (a >= 0 && bit_get(T.mayS, static_cast<unsigned>(a)));
 		const HookEv* nx = peek();
 		const bool head_must_fire = !T.mirror.empty() && a >= 0 && T.mirror[0].origin == a && bit_get(T.mustS, static_cast<unsigned>(a)) && !cycle_fail_call && !bit_get(T.mayF, static_cast<unsigned>(a));
-		if (nx && nx->step == 0 && (nx->method == M_PLAN_FAILED || nx->method == M_PLAN_SUCCEEDED) && nx->cls == SUT_INVALID) {
-			const bool failed = nx->method == M_PLAN_FAILED;
-			if (head_must_fire) viol("C08", "head-task-fires", std::string("the first task's origin is active and reported success in this cycle without failure reports, but ") + METHOD_NAMES[nx->method] + "() was delivered and the task did not fire");
+		// a plan outcome is seen as a callback of the root head, or (machines whose root defines no such callback, verbose
+		// build, logger attached throughout) as the verbose method record of the delivery
+		int out_method = -1; bool via_record = false;
+		if (nx && nx->step == 0 && (nx->method == M_PLAN_FAILED || nx->method == M_PLAN_SUCCEEDED) && nx->cls == SUT_INVALID) out_method = nx->method;
+		else if (g_case_vlog && T.logger) {
+			for (size_t i = 0; i < x.logs.size(); ++i) {
+				const LogEv& l = x.logs[i];
+				if (l.pos == hi && l.kind == LOG_METHOD && l.origin == SUT_INVALID && (l.arg == M_PLAN_FAILED || l.arg == M_PLAN_SUCCEEDED) && !defines(SUT_INVALID, l.arg) && !bit_get(consumed_logs, static_cast<unsigned>(i < 255 ? i : 255))) {
+					out_method = l.arg; via_record = true; if (i < 255) bit_set(consumed_logs, static_cast<unsigned>(i), true); break;
+				}
+			}
+		}
+		if (out_method >= 0) {
+			const bool failed = out_method == M_PLAN_FAILED;
+			const size_t nviol = out.size();
+			if (head_must_fire) viol("C08", "head-task-fires", std::string("the first task's origin is active and reported success in this cycle without failure reports, but ") + METHOD_NAMES[out_method] + "() was delivered and the task did not fire");
 			if (failed && !fail_out) viol("C09", "planFailed-needs-failure", "planFailed() delivered in a cycle without any outstanding task failure");
 			if (!failed && !succ_out) viol("C09", "planSucceeded-needs-success", "planSucceeded() delivered in a cycle without any outstanding success");
 			if (!failed && !T.mirror.empty()) viol("C09", "planSucceeded-needs-empty-plan", "planSucceeded() delivered while " + S(static_cast<int>(T.mirror.size())) + " task(s) remain");
-			if (!T.task_added) viol("C09", "outcome-needs-plan", std::string(METHOD_NAMES[nx->method]) + "() delivered on a machine to which no task has been added since activation");
+			if (!T.task_added) viol("C09", "outcome-needs-plan", std::string(METHOD_NAMES[out_method]) + "() delivered on a machine to which no task has been added since activation");
 			Ctx cx; cx.expect_active = a; cx.prop = "C09"; cx.clause = "one-outcome-per-cycle";
-			delivery(nx->method, SUT_INVALID, cx);
+			if (!via_record) delivery(out_method, SUT_INVALID, cx);
+			else {
+				explog(LOG_METHOD, SUT_INVALID, out_method, hi);
+				// the record is all there is to see: if it contradicts what the reports warrant, the record is (also) what is wrong
+				if (out.size() > nviol) viol("C16", "method-record", std::string("the verbose method record says ") + METHOD_NAMES[out_method] + "() was delivered to the root, which the task reports of this cycle do not warrant");
+				g_stats.hit("plan_outcomes_seen_through_verbose_records");
+			}
 			T.mirror.clear(); memset(T.mayS, 0, 32); memset(T.mayF, 0, 32); memset(T.mustS, 0, 32);
 			mark_nontrivial(failed ? "plan_failed_delivered" : "plan_succeeded_delivered");
 			if (const HookEv* e2 = peek()) if (e2->method == M_PLAN_FAILED || e2->method == M_PLAN_SUCCEEDED) structural("C09", "one-outcome-per-cycle", "a second plan outcome callback in one cycle");
 			return;
 		}
-		if (root_outcomes && !T.mirror.empty() && own_fail)
+		if ((root_outcomes || (g_case_vlog && T.logger)) && !T.mirror.empty() && own_fail)
 			viol("C09", "planFailed-on-own-failure", "the active state reported failure with a non-empty plan but planFailed() was not delivered in that cycle");
 		// which tasks disappeared in the plan step?
 		const PlanSnap* p1 = 0;
